@@ -1,1 +1,138 @@
-//! stub
+//! Independent Go-style duration text (DESIGN B.3): formatter and exact parser, written from the
+//! Go specification of time.Duration.String / time.ParseDuration, not ported from duration.rs.
+
+fn frac_digits(rem: u128, width: usize) -> String {
+    if rem == 0 {
+        return String::new();
+    }
+    let s = format!("{:0width$}", rem, width = width);
+    format!(".{}", s.trim_end_matches('0'))
+}
+
+/// canonical Go rendering of a nanosecond count
+pub fn go_format(ns: i128) -> String {
+    if ns == 0 {
+        return "0s".into();
+    }
+    let u = ns.unsigned_abs();
+    let body = if u < 1_000 {
+        format!("{u}ns")
+    } else if u < 1_000_000 {
+        format!("{}{}µs", u / 1_000, frac_digits(u % 1_000, 3))
+    } else if u < 1_000_000_000 {
+        format!("{}{}ms", u / 1_000_000, frac_digits(u % 1_000_000, 6))
+    } else {
+        let secs = u / 1_000_000_000;
+        let sec_str = format!("{}{}s", secs % 60, frac_digits(u % 1_000_000_000, 9));
+        let (h, m) = (secs / 3600, (secs / 60) % 60);
+        if h > 0 {
+            format!("{h}h{m}m{sec_str}")
+        } else if m > 0 {
+            format!("{m}m{sec_str}")
+        } else {
+            sec_str
+        }
+    };
+    if ns < 0 {
+        format!("-{body}")
+    } else {
+        body
+    }
+}
+
+#[derive(Debug, Clone, PartialEq)]
+pub enum Parsed {
+    Malformed(&'static str),
+    /// signed bounds of the denoted value in ns (equal when every term is a whole number of ns);
+    /// flags for spellings whose acceptance is not asserted
+    Ok { lo: i128, hi: i128, plus_sign: bool, bare_dot_number: bool, micro_symbol: bool },
+}
+
+/// `[+-]? ( "0" | (number unit)+ )`, number = digits [. digits*] | . digits+, unit in ns us µs μs ms s m h
+pub fn parse(s: &str) -> Parsed {
+    let mut rest = s;
+    let mut neg = false;
+    let mut plus = false;
+    if let Some(r) = rest.strip_prefix('-') {
+        neg = true;
+        rest = r;
+    } else if let Some(r) = rest.strip_prefix('+') {
+        plus = true;
+        rest = r;
+    }
+    if rest == "0" {
+        return Parsed::Ok { lo: 0, hi: 0, plus_sign: plus, bare_dot_number: false, micro_symbol: false };
+    }
+    if rest.is_empty() {
+        return Parsed::Malformed("empty");
+    }
+    let (mut lo, mut hi) = (0u128, 0u128);
+    let mut bare = false;
+    let mut micro = false;
+    while !rest.is_empty() {
+        let int_len = rest.bytes().take_while(|b| b.is_ascii_digit()).count();
+        let int_part = &rest[..int_len];
+        rest = &rest[int_len..];
+        let mut frac_part = "";
+        let mut had_dot = false;
+        if let Some(r) = rest.strip_prefix('.') {
+            had_dot = true;
+            let fl = r.bytes().take_while(|b| b.is_ascii_digit()).count();
+            frac_part = &r[..fl];
+            rest = &r[fl..];
+        }
+        if int_part.is_empty() && frac_part.is_empty() {
+            return Parsed::Malformed("term without a decimal number");
+        }
+        if had_dot && (int_part.is_empty() || frac_part.is_empty()) {
+            bare = true;
+        }
+        let units: [(&str, u128); 8] = [("ns", 1), ("us", 1_000), ("µs", 1_000), ("μs", 1_000), ("ms", 1_000_000), ("s", 1_000_000_000), ("m", 60_000_000_000), ("h", 3_600_000_000_000)];
+        let Some((name, unit)) = units.iter().find(|(n, _)| rest.starts_with(n)).copied() else {
+            return Parsed::Malformed("missing or unknown unit");
+        };
+        if name == "µs" || name == "μs" {
+            micro = true;
+        }
+        rest = &rest[name.len()..];
+        // exact value of the term as a rational: (int * 10^k + frac) * unit / 10^k
+        if int_part.len() > 30 || frac_part.len() > 60 {
+            // absurdly long numbers: magnitude decides
+            if int_part.trim_start_matches('0').len() > 25 {
+                return Parsed::Ok { lo: i128::MAX, hi: i128::MAX, plus_sign: plus, bare_dot_number: bare, micro_symbol: micro };
+            }
+        }
+        let int_val: u128 = int_part.trim_start_matches('0').parse().unwrap_or(0);
+        let whole = int_val.saturating_mul(unit);
+        // fraction: floor and ceil of frac * unit / 10^k using the first 30 digits (unit <= 3.6e12, so 30 digits decide floor/ceil up to an error < 1e-17 ns; treat as inexact when digits remain)
+        let digits: String = frac_part.chars().take(30).collect();
+        let k = digits.len() as u32;
+        let fv: u128 = if digits.is_empty() { 0 } else { digits.parse().unwrap_or(0) };
+        let scale = 10u128.pow(k);
+        let num = fv * unit; // < 1e30 * 3.6e12 fits u128 (3.4e38)? 1e30*3.6e12 = 3.6e42 does not: use k <= 24
+        let _ = num;
+        let (flo, fhi) = {
+            let digits24: String = frac_part.chars().take(24).collect();
+            let k = digits24.len() as u32;
+            let fv: u128 = if digits24.is_empty() { 0 } else { digits24.parse().unwrap_or(0) };
+            let scale = 10u128.pow(k);
+            let n = fv * unit;
+            let fl = n / scale;
+            let exact = n % scale == 0 && frac_part.chars().skip(24).all(|c| c == '0');
+            (fl, if exact { fl } else { fl + 1 })
+        };
+        let _ = scale;
+        lo = lo.saturating_add(whole.saturating_add(flo));
+        hi = hi.saturating_add(whole.saturating_add(fhi));
+    }
+    let to_signed = |x: u128| -> i128 {
+        let v = if x > i128::MAX as u128 / 2 { i128::MAX / 2 } else { x as i128 };
+        if neg {
+            -v
+        } else {
+            v
+        }
+    };
+    let (a, b) = (to_signed(lo), to_signed(hi));
+    Parsed::Ok { lo: a.min(b), hi: a.max(b), plus_sign: plus, bare_dot_number: bare, micro_symbol: micro }
+}
